@@ -25,6 +25,7 @@ import (
 	"strconv"
 	"strings"
 	"sync"
+	"sync/atomic"
 	"time"
 
 	"github.com/youzan/ZanRedisDB/common"
@@ -411,7 +412,7 @@ func newSyncerSM(cluster string, proxyAddr string, httpPort string) (node.StateM
 }
 
 // runE returns (case ops in kind-B syntax, observations) or an error (inconclusive).
-func runE(l *live, pre string, r *hx.Rng, withSnap bool, failFirstApply bool, twoSnaps bool) (string, string, error) {
+func runE(l *live, pre string, r *hx.Rng, withSnap bool, failFirstApply bool, twoSnaps bool, noBackupFirst bool) (string, string, error) {
 	k := 1 + r.Pick(2)
 	if withSnap {
 		k = 1 // a remote snapshot replaces the whole store: one source
@@ -443,7 +444,19 @@ func runE(l *live, pre string, r *hx.Rng, withSnap bool, failFirstApply bool, tw
 		if herr != nil {
 			return "", "", herr
 		}
-		hs := &http.Server{Handler: http.HandlerFunc(func(w http.ResponseWriter, rq *http.Request) { w.WriteHeader(200) })}
+		// noBackupFirst: at the first hand-over NO source replica has a backup matching the snapshot (the check answers
+		// 404 three times = one PrepareSnapshot); the learner must fail this attempt and must not move on
+		var noBackupLeft int32
+		if noBackupFirst {
+			noBackupLeft = 3
+		}
+		hs := &http.Server{Handler: http.HandlerFunc(func(w http.ResponseWriter, rq *http.Request) {
+			if atomic.AddInt32(&noBackupLeft, -1) >= 0 {
+				w.WriteHeader(404)
+				return
+			}
+			w.WriteHeader(200)
+		})}
 		go hs.Serve(hl)
 		defer hs.Close()
 		httpPort = strconv.Itoa(hl.Addr().(*net.TCPAddr).Port)
@@ -552,7 +565,7 @@ func runE(l *live, pre string, r *hx.Rng, withSnap bool, failFirstApply bool, tw
 			var snap raftpb.Snapshot
 			snap.Metadata.Term, snap.Metadata.Index = e.t, e.i
 			okHand := false
-			for try := 0; try < 4 && !okHand; try++ {
+			for try := 0; try < 6 && !okHand; try++ {
 				herr := sms[c].PrepareSnapshot(snap, stop)
 				if herr == nil {
 					herr = sms[c].RestoreFromSnapshot(snap, stop)
@@ -571,7 +584,7 @@ func runE(l *live, pre string, r *hx.Rng, withSnap bool, failFirstApply bool, tw
 			px.handover = false
 			px.mu.Unlock()
 			if !okHand {
-				return "", "", errors.New("snapshot hand-over did not complete in 4 attempts")
+				return "", "", errors.New("snapshot hand-over did not complete in 6 attempts")
 			}
 			next[c] = handTo
 			if handAt2 >= 0 {
@@ -609,7 +622,8 @@ func runE(l *live, pre string, r *hx.Rng, withSnap bool, failFirstApply bool, tw
 	deadline := time.Now().Add(60 * time.Second)
 	for c := 1; c <= k; c++ {
 		last := src[c][len(src[c])-1].i
-		var claimedSince time.Time
+		var claimedSince, lastProbe time.Time
+		drainStart := time.Now()
 		for px.syncedIndex(c) < last {
 			if px.broken != "" {
 				return "", "", errors.New("proxy: " + px.broken)
@@ -626,6 +640,16 @@ func runE(l *live, pre string, r *hx.Rng, withSnap bool, failFirstApply bool, tw
 				}
 			} else {
 				claimedSince = time.Time{}
+			}
+			if time.Since(drainStart) > 5*time.Second && time.Since(lastProbe) > 5*time.Second {
+				// every entry of the learner's raft log has been applied by its state machine; if its send buffer is
+				// drained as well (its own GetSnapshot succeeds) nothing more will ever be sent: conclusive
+				e := src[c][len(src[c])-1]
+				if _, gerr := sms[c].GetSnapshot(e.t, e.i); gerr == nil {
+					time.Sleep(2 * time.Second)
+					break
+				}
+				lastProbe = time.Now()
 			}
 			if time.Now().After(deadline) {
 				return "", "", fmt.Errorf("drain timeout: cluster %d synced %d < %d", c, px.syncedIndex(c), last)
@@ -689,6 +713,16 @@ func runL(l *live, pre string, r *hx.Rng, variant string) (string, string, error
 	src := genSource(r, 1)
 	for len(src) < 6 {
 		src = genSource(r, 1)
+	}
+	if variant == "big" {
+		// one long source log in one term: a backlog of some hundred entries builds up behind a stalled receiver and
+		// leaves the learner as ONE pending batch
+		src = src[:0]
+		t0, i0 := uint64(1+r.Pick(3)), uint64(1+r.Pick(4))
+		for j := 0; j < 2+270+r.Pick(60); j++ {
+			i := i0 + uint64(j)
+			src = append(src, sent{c: 1, t: t0, i: i, p: i*50 + uint64(r.Pick(50)), ts: 1600000000000000000 + 1000000 + int64(i)})
+		}
 	}
 	if variant == "standby" {
 		// the entries go on in ONE raft term: the stand-by holds a recorded remote position of that very term when the
@@ -759,6 +793,9 @@ func runL(l *live, pre string, r *hx.Rng, variant string) (string, string, error
 	if b > a+2 {
 		b = a + 2 // the backlog: 1 or 2 entries (every entry costs the stand-by real seconds)
 	}
+	if variant == "big" {
+		a, b = 2, n
+	}
 	l1, err := newSyncerSM(name, paddr, "")
 	if err != nil {
 		return "", "", err
@@ -797,6 +834,15 @@ func runL(l *live, pre string, r *hx.Rng, variant string) (string, string, error
 		}
 	}
 	setStall(true)
+	if variant == "big" {
+		// one entry first: the send loop is now busy re-trying it, everything fed meanwhile waits in the buffer
+		if err := feed(l1, a, a+1); err != nil {
+			closeAll()
+			return "", "", err
+		}
+		a++
+		time.Sleep(150 * time.Millisecond)
+	}
 	if err := feed(l1, a, b); err != nil {
 		closeAll()
 		return "", "", err
@@ -806,14 +852,20 @@ func runL(l *live, pre string, r *hx.Rng, variant string) (string, string, error
 		if _, err := l1.GetSnapshot(src[b-1].t, src[b-1].i); err == nil {
 			snapIdx = b
 		}
+	} else if variant == "big" {
+		time.Sleep(100 * time.Millisecond)
 	} else {
 		time.Sleep(4500 * time.Millisecond) // time for a stand-by that is willing to run ahead to do so
 	}
-	// the forwarding learner dies with its backlog
-	l1.Close()
-	l1 = nil
+	if variant != "big" {
+		// the forwarding learner dies with its backlog
+		l1.Close()
+		l1 = nil
+	}
 	setStall(false)
-	if variant == "standby" {
+	if variant == "big" {
+		// the same learner goes on: the whole backlog is in its buffer
+	} else if variant == "standby" {
 		node.VerifSyncerSwitchSend(l2, true)
 		select {
 		case err := <-l2done:
